@@ -48,10 +48,13 @@ CHECKS.update({
              text='For all 2^64 seconds values (incl. before the epoch), nsec < 1e9 and no_deadline: no ASSERT/crash, termination within the bound, expired deadline => ETIMEDOUT, no early timeout.',
              note='trusted: CBMC; the layers above the semaphore pass the deadline through unchanged (read, not encoded)', ref='2 C15'),
 })
-NA = {
- 'C08': 'not claimed yet: the note scenarios translate to programs too large for the bounded model checker within the time budget (see DESIGN.md section 6); C09 likewise',
- 'C09': 'not claimed yet: see C08',
-}
+CHECKS.update({
+ 'C08': e3('SEQUENTIAL HALF ONLY: expiry = minimum of the deadlines to the root for every tree of depth 3 with solver-chosen deadlines, notification reaches descendants and leaves ancestors/siblings alone (single-thread symbolic execution of the real note.c). '
+           'The concurrent half of the property is not decided (programs too large for the bounded model checker).', tech='bounded symbolic execution of the real note code on symbolic trees (seqcc single thread -> CBMC); concurrency half not decided'),
+ 'C09': e3('SEQUENTIAL HALF ONLY (thorough tier): adoption of the children of a freed note and no access to freed notes in a single-thread free/notify sequence; the concurrent half is not decided.',
+           tech='bounded symbolic execution of nsync_note_free / notify sequences with object liveness tracking (seqcc single thread -> CBMC); concurrency half not decided'),
+})
+NA = {}
 NA_REASON = 'check not built yet (work in progress; see DESIGN.md section 5 for the order of work)'
 
 def main():
